@@ -13,7 +13,7 @@ pool means, margin, overstatements, test data, u) is computed by the model from 
 import math
 from fractions import Fraction
 
-from ..core import fr, num_close, err_kind, case_key
+from ..core import fr, num_close, err_kind, case_key, container, CONTAINER_KINDS
 
 NAME = "overstatement"
 RULE = ("populations of 1-30 (CVR, MVR) pairs built with CVR.from_dict / CVR(...) / CVR.make_phantoms; 0-3 tally pools, any "
@@ -225,12 +225,14 @@ def impl(case):
         dflt = case.get("call") == "defaults"
 
         def f():
+            # (two passes over the records when the pools are not given: a re-iterable container only)
+            cl = tuple(cvrs) if case.get("container") not in (None, "list") else cvrs
             if dflt:
                 # `tally_pools` left out when there is none, `use_style` left out when it is True (the defaults)
                 kw = ({} if arg is None else {"tally_pools": arg}) | ({} if us else {"use_style": us})
-                asn.assorter.set_tally_pool_means(cvrs, **kw)
+                asn.assorter.set_tally_pool_means(cl, **kw)
             else:
-                asn.assorter.set_tally_pool_means(cvr_list=cvrs, tally_pools=arg, use_style=us)
+                asn.assorter.set_tally_pool_means(cvr_list=cl, tally_pools=arg, use_style=us)
             return {"st": "ok", "means": [[k, _num(v)] for k, v in asn.assorter.tally_pool_means.items()]}
         res["pm"] = _call(f)
     if case.get("means_override") is not None:
@@ -238,7 +240,7 @@ def impl(case):
     res["means_set"] = asn.assorter.tally_pool_means is not None
     # 2. margin
     def g():
-        asn.set_margin_from_cvrs(audit, cvrs)
+        asn.set_margin_from_cvrs(audit, container(case.get("container"), cvrs))
         return {"st": "ok", "margin": _num(asn.margin), "u": _num(asn.test.u)}
     res["mg"] = _call(g)
 
@@ -263,9 +265,17 @@ def impl(case):
         # (Dominion/Hart.sample_from_cvrs, sample_from_manifest), or the contest listed without votes (make_phantoms)
         mph0 = CVR(id=m.id, votes={}, phantom=_true)
         mphc = CVR(id=m.id, votes={CID: {}}, phantom=_true)
+        # the CVR used as its OWN manual record (what mvrs_to_data(cvrs, cvrs) does when a sample size is planned from
+        # the CVRs alone), against an equal but distinct copy of it as the manual record: object identity is no evidence
+        twin = CVR(id=c.id, votes={kk: dict(v) for kk, v in c.votes.items()}, phantom=c.phantom, tally_pool=c.tally_pool,
+                   pool=c.pool)
+        bself = _call(lambda: {"st": "ok", "v": _num(asn.overstatement_assorter(c, c, use_style=us))})
+        btwin = _call(lambda: {"st": "ok", "v": _num(asn.overstatement_assorter(twin, c, use_style=us))})
         if case.get("call") == "defaults" and us:
             # style-based sampling is the default of both functions: the argument is left out, records go by keyword
             pairs.append({
+                "_self": None if (bself == btwin or (bself.get("st") != "ok" and btwin.get("st") != "ok")) else
+                f"the CVR as its own manual record gives {bself.get('v', bself.get('err'))}, an equal copy of it {btwin.get('v', btwin.get('err'))}",
                 "o": _call(lambda: {"st": "ok", "v": _num(asn.assorter.overstatement(m, c))}),
                 "b": _call(lambda: {"st": "ok", "v": _num(asn.overstatement_assorter(mvr=m, cvr=c))}),
                 "bph": _call(lambda: {"st": "ok", "v": _num(asn.overstatement_assorter(mph, c))}),
@@ -274,6 +284,8 @@ def impl(case):
             })
             continue
         pairs.append({
+            "_self": None if (bself == btwin or (bself.get("st") != "ok" and btwin.get("st") != "ok")) else
+            f"the CVR as its own manual record gives {bself.get('v', bself.get('err'))}, an equal copy of it {btwin.get('v', btwin.get('err'))}",
             "o": _call(lambda: {"st": "ok", "v": _num(asn.assorter.overstatement(m, c, us))}),
             "b": _call(lambda: {"st": "ok", "v": _num(asn.overstatement_assorter(m, c, use_style=us))}),
             "bph": _call(lambda: {"st": "ok", "v": _num(asn.overstatement_assorter(mph, c, use_style=us))}),
@@ -633,6 +645,9 @@ def oracle_c08(case, ir):
     means_set = ir["means_set"]
     for i, (x, p) in enumerate(zip(f, ir["pairs"])):
         o = p["o"]
+        if p.get("_self"):
+            return {"what": f"pair {i} (CVR phantom={x['c_ph']}, pooled={x['c_pool']}): {p['_self']} -- a card that cannot "
+                            f"be found is scored by what the records SAY, not by which objects they are", "pair": i}
         # phantom CVR scored as a non-vote (1/2) outside a pool
         if o.get("st") == "ok" and not isinstance(o["v"], str) and x["c_ph"] and not (x["c_pool"] and means_set):
             cvr_assort = o["v"] + _mvr_A(case, x)
@@ -831,6 +846,7 @@ def gen_one(rng):
     case["flag_type"] = rng.choice(["bool", "bool", "np", "int"])
     case["direct"] = scf != "IRV" and rng.chance(0.4)     # assertion built by the direct constructor call
     case["np_marks"] = scf != "IRV" and rng.chance(0.15)   # marks held as numpy scalars
+    case["container"] = rng.choice(CONTAINER_KINDS)
     _ctor_means = rng.chance(0.2)                          # Assertion(...) with preliminary pool means (filled in below)
     case["use_style"] = rng.chance(0.6)
     r = rng.random()
